@@ -267,8 +267,8 @@ def check_submit_linear(ctx, fb, rule, want=None):
             if e[0] == 'finish' and e[1] == 'Drop':
                 idx = ev.index(e)
                 guards = [b for b in ev[:idx] if b[0] == 'branch']
-                ok = const_alive is False or any(set(b[1]) & (alive_calls | {'yaclib::IExecutor::Alive'})
-                                                 for b in guards)
+                own_alive = {f.clsq + '::Alive', 'yaclib::IExecutor::Alive'}
+                ok = const_alive is False or any(set(b[1]) & (alive_calls | own_alive) for b in guards)
                 if not ok:
                     ctx.report(rule, key, e[3], 'Drop() of a submitted job is not guarded by the stop condition '
                                'that Alive() reports: a job is dropped by an executor that accepts work')
@@ -384,6 +384,29 @@ def check_pool_lockset(ctx, fb, r_lock, r_drain):
                 rep = True
                 ctx.report(r_lock, key, f.where, 'a path leaves the function with _m still held (or released twice)')
         ctx.instance(r_lock, key, dict(function=f.full, paths=len(res), guarded_accesses=nacc))
+    # acceptance and enqueue form one critical section: the stop test that admits a job is evaluated under the
+    # same lock hold in which the job is pushed (otherwise a Stop between the two leaves an accepted job that is
+    # neither Called nor Dropped)
+    sub = [f for f in entries if f.n == 'Submit'][0]
+    _, alive_calls = alive_info(fb, sub.cls)
+    key = 'R-LOCKSET accept+enqueue atomic FairThreadPool::Submit'
+    w = ExecWalker(fb, P, guarded)
+    res = w.run(sub)
+    ctx.instance(r_lock, key, dict(function=sub.full, paths=len(res), acceptance_predicate=sorted(alive_calls)))
+    for st, _ in res:
+        ev = st.events
+        enq = [i for i, e in enumerate(ev) if e[0] == 'enqueue']
+        if not enq:
+            continue
+        i = enq[0]
+        locks = [j for j, e in enumerate(ev[:i]) if e[0] == 'lock']
+        j = locks[-1] if locks else -1
+        tested = any(e[0] == 'branch' and set(e[1]) & alive_calls for e in ev[j + 1:i])
+        if not tested:
+            ctx.report(r_lock, key, ev[i][3], 'the job is enqueued in a critical section that did not itself test the '
+                       'stop condition: a Stop/HardStop between the acceptance test and the push leaves an accepted '
+                       'job that is never Called nor Dropped (check-then-act across two lock holds)')
+            break
     # drain before stop: in Loop every return is reached with the queue seen empty under the same lock hold
     loop = [f for f in entries if f.n == 'Loop'][0]
     w = ExecWalker(fb, P, guarded)
